@@ -5,6 +5,12 @@ UNITS = {
     'core_kernel': {'sources': ('core',), 'modes': ('F', 'D')},
     'round': {'sources': ('core', 'fpdec'), 'modes': ('F', 'D')},
     'add_sub': {'sources': ('core', 'fpdec'), 'modes': ('F', 'D')},
+    'div_kernel': {'sources': ('core', 'fpdec'), 'modes': ('F', 'D'), 'module': 'div', 'builder': 'build_kernel'},
+    'div_rounded': {'sources': ('core', 'fpdec'), 'modes': ('F', 'D'), 'module': 'div', 'builder': 'build'},
+    'div': {'sources': ('core', 'fpdec'), 'modes': ('F', 'D'), 'module': 'div', 'builder': 'build_div'},
+    'checked_div': {'sources': ('core', 'fpdec'), 'modes': ('F', 'D'), 'module': 'div', 'builder': 'build_checked_div'},
+    'mul': {'sources': ('core', 'fpdec'), 'modes': ('F', 'D')},
+    'checked_mul': {'sources': ('core', 'fpdec'), 'modes': ('F', 'D'), 'module': 'mul', 'builder': 'build_checked'},
     'cmp': {'sources': ('core', 'fpdec'), 'modes': ('F', 'D')},
     'checked_add_sub': {'sources': ('core', 'fpdec'), 'modes': ('F', 'D'), 'module': 'add_sub', 'builder': 'build_checked'},
 }
@@ -25,6 +31,36 @@ PROPS = {
         'assumptions': ['min/max/<,<=,>,>= are std default methods over cmp/partial_cmp (trusted std)',
                         'reflexive/antisymmetric/transitive: spec-level lemmas over val_cmp (spec/order.rs), connected to the code through the by_value postconditions',
                         'feature rkyv (ArchivedDecimal comparisons, archive round trip) is NOT covered by this check'],
+    },
+    'C02': {
+        'units': ['core_kernel', 'mul', 'checked_mul'],
+        'title': 'Multiplication is exact up to 18 digits, else correctly rounded',
+        'design_ref': 'DESIGN.md section 7 (C02)',
+        'assumptions': [
+            'R5: thread default rounding mode read once per call (uninterpreted function of the thread state)',
+            'the 256-bit path i128_mul_div_ten_pow_rounded enters with its interface contract (units/wide_iface.py); its body is the subject of C16',
+            'representable = coefficient within Decimal::MIN..=Decimal::MAX; at coefficient -2^127 (inside i128, outside that range) both panic and return are accepted',
+        ],
+    },
+    'C03': {
+        'units': ['core_kernel', 'div_kernel', 'div', 'checked_div'],
+        'title': 'Division yields the quotient correctly rounded to 18 fractional digits',
+        'design_ref': 'DESIGN.md section 7 (C03)',
+        'assumptions': [
+            'R5: thread default rounding mode read once per call (uninterpreted function of the thread state)',
+            'the 256-bit path i128_shifted_div_rounded enters with its interface contract (units/wide_iface.py); its body is the subject of C16',
+            'representable = coefficient within Decimal::MIN..=Decimal::MAX; at coefficient -2^127 both panic and return are accepted',
+        ],
+    },
+    'C04': {
+        'units': ['core_kernel', 'div_kernel', 'div_rounded', 'mul'],
+        'title': 'mul_rounded, div_rounded and quantize round the exact result once, per mode',
+        'design_ref': 'DESIGN.md section 7 (C04)',
+        'assumptions': [
+            'R5: thread default rounding mode read once per call (uninterpreted function of the thread state)',
+            'the 256-bit paths enter with their interface contracts (units/wide_iface.py); their bodies are the subject of C16',
+            'quantize (generic blanket impl: div_rounded(q, 0) * q) is NOT under contract yet; its two constituents are',
+        ],
     },
     'C05': {
         'units': ['core_kernel', 'round'],
